@@ -22,7 +22,7 @@ theorem HeadOut.good {r : Id} {s s' : State} {up : List Id} {ph : Phase} {res : 
     unfold FitsM
     rw [hmd]
     exact ⟨m, up, el, by rw [hod, hm], rfl, h1, h2, by rw [hhd]; exact hfit.congr hsn,
-      not_in_of_keepName_false hx (by decide)⟩
+      not_in_of_keepName_false hx.1 (by decide), hx.2⟩
 
 theorem isStart_sub {tag : Tag} {l l' : List String} (h : tag.isStart l = true) (hl : ∀ a ∈ l, a ∈ l') :
     tag.isStart l' = true := by
@@ -196,7 +196,7 @@ theorem Core.pushHead {s : State} {r h : Id} (hc : Core s r [] .p1) (hh : s.head
     rintro rfl
     rw [hc.root_name] at hhn; revert hhn; decide
   refine ⟨⟨hc.late.push ⟨hel, hnd⟩, by show s.openElems ++ [h] = _; rw [hst]; rfl, hc.rdoc, ?_, ?_, hc.afn, ?_, hc.tmm,
-    hc.form, hc.rtu, hc.rnd, hc.kids, hc.elems, by intro y hy; cases hy⟩, hhn⟩
+    hc.form, hc.rtu, hc.rnd, hc.kids, hc.elems, (by intro y hy; cases hy), hc.afx⟩, hhn⟩
   · show (s.openElems ++ [h]).Nodup
     rw [hst]; simp; exact Ne.symm hne
   · show TG (nm s.dom) (s.openElems ++ [h])
@@ -219,7 +219,7 @@ theorem Core.pushHead {s : State} {r h : Id} (hc : Core s r [] .p1) (hh : s.head
 theorem Core.dropSecond {s s' : State} {r a : Id} {rest : List Id} {ph : Phase} (hc : Core s r (a :: rest) ph)
     (hse : SE s s') (hst : s'.openElems = r :: rest)
     (hrest : ∀ b ∈ rest, constrained (nm s.dom b) = false)
-    (hbh : ∀ y ∈ rest.tail, htmlIn (nm s.dom y) ["html", "body", "head", "frameset"] = false) :
+    (hbh : ∀ y ∈ rest.tail, htmlIn (nm s.dom y) (bhNames ph) = false) :
     Core s' r rest ph := by
   have hr := hse.rest
   have hk : ∀ y, s'.dom.childrenOf y = s.dom.childrenOf y := childrenOf_of_nodes hse.nodes
@@ -242,7 +242,9 @@ theorem Core.dropSecond {s s' : State} {r a : Id} {rest : List Id} {ph : Phase} 
     · rw [hr]; exact hc.late.ml.orig
     · rw [hr]; exact hc.late.ml.tm
   refine ⟨hl, hst, by rw [hk]; exact hc.rdoc, by rw [hst]; exact hsub.nodup hc.nodup, ?_, ?_, ?_, ?_, ?_,
-    (RS.of_nodes hse.nodes).uniq hc.rtu, by rw [hk]; exact hc.rnd, ?_, ?_, ?_⟩
+    (RS.of_nodes hse.nodes).uniq hc.rtu, by rw [hk]; exact hc.rnd, ?_, ?_, ?_,
+    (by have haf : s'.activeFormatting = s.activeFormatting := by rw [hr]
+        rw [haf]; exact hc.afx.of_nodes hse.nodes)⟩
   · rw [hst]
     have h1 : TG (nm s.dom) [r] := TG.single _ _
     have : TG (nm s.dom) ([r] ++ rest) := h1.append_dis hrest
@@ -287,12 +289,13 @@ theorem Core.free {s s' : State} {r : Id} {up : List Id} {ph : Phase} (hc : Core
   exact ⟨hl, by rw [h2]; exact hc.stack, by rw [h1]; exact hc.rdoc, by rw [h2]; exact hc.nodup,
     by rw [h1, h2]; exact hc.tg, by rw [h1, h10]; exact hc.afn, by rw [h1, h2, h9]; exact hc.tc, by rw [h9]; exact hc.tmm,
     by rw [h1, h11]; exact hc.form, by rw [h1]; exact hc.rtu, by rw [h1]; exact hc.rnd, by rw [h1]; exact hc.kids,
-    by rw [h1, h3]; exact hc.elems, by rw [h1]; exact hc.bh⟩
+    by rw [h1, h3]; exact hc.elems, by rw [h1]; exact hc.bh, by rw [h1, h10]; exact hc.afx⟩
 
 /-- `body` (or `frameset`) is inserted below the root in AfterHead -/
 theorem afterHead_insert {s s1 : State} {r el h0 : Id} {name : Str} {attrs : List Attr} {dup : Bool}
     (hc : Core s r [] .p1) (hh : s.headElem = some h0)
     (hcon : constrained ⟨nsHtml, name⟩ = false) (hnt : (⟨nsHtml, name⟩ : EName) ≠ hN "template")
+    (hnfm : isFmtE ⟨nsHtml, name⟩ = false)
     (e : insertElement true nsHtml name attrs dup s = .ok (el, s1)) :
     s1.headElem = some h0 ∧ s1.openElems = [r, el] ∧ nm s1.dom el = ⟨nsHtml, name⟩ ∧ h0 ≠ el ∧
       s1.mode = s.mode ∧ s1.origMode = s.origMode ∧
@@ -318,6 +321,14 @@ theorem afterHead_insert {s s1 : State} {r el h0 : Id} {name : Str} {attrs : Lis
     (by
       rw [f2, hh]
       exact he s5.dom (by rw [hnmo h0 (lt_of_isElement hh0e)]; exact e3) hres.nmel (by rw [hre, e2]; rfl))
+    (by
+      intro x hx hf
+      exfalso
+      rw [hre, e2] at hx
+      simp only [List.cons_append, List.nil_append, List.mem_cons, List.not_mem_nil, or_false] at hx
+      rcases hx with rfl | rfl
+      · rw [hnmo x (lt_of_isElement hh0e), e3] at hf; revert hf; decide
+      · rw [hres.nmel, hnfm] at hf; cases hf)
   rw [hs1]
   exact this
 
@@ -344,7 +355,9 @@ structure TmplAfterHead : Prop where
   start : ∀ (tag : Tag) (r h0 : Id) (s : State) (res : ProcessResult) (s' s'' : State) (u : Unit),
     Core s r [h0] .p1 → s.headElem = some h0 → s.mode = .afterHead → tag.isStart ["template"] = true →
     stepInHead (.tag tag) s = .ok (res, s') → H5V.Model.HtmlTB.removeFromStack h0 s' = .ok (u, s'') → Out r s'' res
-  end_ : TmplOk .afterHead
+  end_ : ∀ (tag : Tag) (r : Id) (s : State) (res : ProcessResult) (s' : State),
+    Good r s → s.mode = .afterHead → tag.isEnd ["template"] = true →
+    stepInHead (.tag tag) s = .ok (res, s') → Out r s' res
 
 set_option maxHeartbeats 1600000 in
 theorem modeOk_afterHead (T : TmplAfterHead) : ModeOk .afterHead := by
@@ -364,7 +377,7 @@ theorem modeOk_afterHead (T : TmplAfterHead) : ModeOk .afterHead := by
       insertElement true nsHtml "body".toList attrs dup s = .ok (el, s1) →
       Core s1 r [el] (.pb el) ∧ s1.headElem = some h0 ∧ h0 ≠ el ∧ s1.mode = s.mode := by
     intro s1 el attrs dup e1
-    obtain ⟨a1, a2, a3, a4, a5, a6, a7⟩ := afterHead_insert hc hh (by decide) (by decide) e1
+    obtain ⟨a1, a2, a3, a4, a5, a6, a7⟩ := afterHead_insert hc hh (by decide) (by decide) (by decide) e1
     exact ⟨a7 (.pb el) (fun d' h1 h2 h3 => ⟨h0, rfl, h3, h1, h2⟩), a1, a4, a5⟩
   have anyElse : ∀ t : Token, TokW t →
       (insertPhantom "body" >>= fun _ => pure (ProcessResult.reprocess .inBody t)) s = .ok (res, s') → Out r s' res := by
@@ -433,7 +446,7 @@ theorem modeOk_afterHead (T : TmplAfterHead) : ModeOk .afterHead := by
           obtain ⟨rfl, rfl⟩ := pure_ok.mp e4
           unfold insertElementFor at e1
           rw [hn] at e1
-          obtain ⟨a1, a2, a3, a4, a5, a6, a7⟩ := afterHead_insert hc hh (by decide) (by decide) e1
+          obtain ⟨a1, a2, a3, a4, a5, a6, a7⟩ := afterHead_insert hc hh (by decide) (by decide) (by decide) e1
           have hc1 : Core s1 r [el] (.pf el) :=
             a7 (.pf el) (fun d' h1' h2' h3' => ⟨h0, [], rfl, h3', h1', h2', fun x hx => by cases hx⟩)
           unfold setMode at e3
@@ -479,7 +492,7 @@ theorem modeOk_afterHead (T : TmplAfterHead) : ModeOk .afterHead := by
                     (by intro b hb
                         have hb' : b = el := by simpa using hb
                         subst hb'
-                        exact constrained_of_keepName_false hx)
+                        exact constrained_of_keepName_false hx.1)
                     (by intro y hy; cases hy)
                   refine Out.of_good (Good.mk' ⟨hc4, ?_⟩) hnr
                   unfold FitsM
@@ -487,7 +500,7 @@ theorem modeOk_afterHead (T : TmplAfterHead) : ModeOk .afterHead := by
                   have ho4 : s4.origMode = some .afterHead := by rw [hse.rest]; show s3.origMode = _; rw [hod, hm2]
                   rw [hm4]
                   exact ⟨.afterHead, [], el, ho4, rfl, by decide, by decide, ⟨rfl, rfl⟩,
-                    by rw [hse.nm]; exact not_in_of_keepName_false hx (by decide)⟩
+                    by rw [hse.nm]; exact not_in_of_keepName_false hx.1 (by decide), by rw [hse.nm]; exact hx.2⟩
               · exfalso
                 cases hsp with
                 | split text h1' _ _ => cases h1'
@@ -534,7 +547,7 @@ theorem modeOk_afterHead (T : TmplAfterHead) : ModeOk .afterHead := by
                   · exact htm h2'
                   · rw [isEnd_false_of_isStart h4] at h2'; cases h2'
           · rcases ite_run e' with ⟨h5, e'⟩ | ⟨h5, e'⟩
-            · exact T.end_ tag r s res s' hg hm (Or.inr h5) e'
+            · exact T.end_ tag r s res s' hg hm h5 e'
             · rcases ite_run e' with ⟨h6, e'⟩ | ⟨h6, e'⟩
               · exact anyElse _ ht e'
               · rcases ite_run e' with ⟨h7, e'⟩ | ⟨h7, e'⟩
